@@ -27,6 +27,9 @@ class OpResult {
   OpResult(const OpResult<T>& oth) : ptr_(oth ? new (buf_) T(*oth.ptr_) : nullptr) {}
 
   OpResult(OpResult<T>&& oth) : ptr_(oth ? new (buf_) T(std::move(*oth.ptr_)) : nullptr) {
+    if (oth.ptr_) {
+      oth.ptr_->~T();
+    }
     oth.ptr_ = nullptr;
   }
 
@@ -56,6 +59,7 @@ class OpResult {
 
     if (oth) {
       ptr_ = new (buf_) T(std::move(*oth.ptr_));
+      oth.ptr_->~T();
       oth.ptr_ = nullptr;
     } else {
       ptr_ = nullptr;
